@@ -76,7 +76,7 @@ Clauses(e) ==
         same == ok /\ m.exc = ""
         allprops == P!PropClauses(c, ver, d, c.cpy_lines, e.insp, <<>>)
         \* clauses about the DECODER's choices do not apply to hand-built / normalised input data
-        props == SelectSeq(allprops, LAMBDA x: x[1] \notin {"P09.additional", "P09.justified", "P13.targets"})
+        props == SelectSeq(allprops, LAMBDA x: x[1] \notin {"P09.additional", "P09.justified", "P13.targets", "P14.iter", "P14.all"})
         \* the data's block boundaries are exactly the jump targets (what a decoder can give back)
         canonical == \E i \in DOMAIN allprops : allprops[i][1] = "P13.targets" /\ allprops[i][2]
     IN <<
